@@ -257,7 +257,11 @@ def cli_cases(chk, ctx):
             if size < BS * plant["m"] + 2 * slen + 5:
                 size = r.choice([BS * plant["m"] + 2 * slen + 5, BS * plant["m"] + BS + r.randrange(0, BS), (plant["m"] + 1) * BS])
         closed = r.choice([[], [], [], [0], [1], [2], [0, 1], [0, 1, 2]])
-        out.append({"kind": "cli", "i": i, "opts": opts, "content": [kind, size, i], "plant": plant, "use_dict": use_dict,
+        procfile = None
+        if i % 10 == 7:
+            procfile, plant = r.choice(["/proc/version", "/proc/filesystems", "/proc/cmdline", "/proc/sys/kernel/ostype"]), None
+        out.append({"kind": "cli", "i": i, "opts": opts, "content": [kind, size, i], "plant": plant, "use_dict": use_dict, "procfile": procfile,
+                    "stale": r.choice([None, None, "longer", "longer", "shorter"]),
                     "closed": closed, "zck": ctx["zck"], "unzck": ctx["unzck"], "unzck_stdout": r.random() < 0.3})
     return out
 
@@ -311,11 +315,22 @@ def run_cli(case):
     cdir = case["dir"]
     os.makedirs(cdir, exist_ok=True)
     keep = False
-    cid = core.h8([case["opts"], case["content"], case["plant"], case["closed"], case["use_dict"], case["unzck_stdout"]])
+    cid = core.h8([case["opts"], case["content"], case["plant"], case["closed"], case["use_dict"], case["unzck_stdout"], case.get("procfile"), case.get("stale")])
     stats = {"cli_cases": 1}
     try:
         D, split = build_cli_input(case)
         open(os.path.join(cdir, "data.bin"), "wb").write(D)
+        inp = "data.bin"
+        if case.get("procfile"):
+            # a regular file that reports size 0 although it has content (procfs): whatever zck turns it into must decode to what a
+            # plain read of the file yields
+            try:
+                D = open(case["procfile"], "rb").read()
+            except OSError:
+                return core.verdict(cid, "unsupported", stats=stats)
+            split = None
+            inp = case["procfile"]
+            stats["inputs_reporting_size_0"] = 1
         cmd = [case["zck"]] + list(case["opts"])
         if case["use_dict"]:
             shutil.copy(os.path.join(gen.REPO, "test/files/LICENSE.dict"), os.path.join(cdir, "d.dict"))
@@ -329,7 +344,7 @@ def run_cli(case):
                 split = None
             else:
                 cmd += ["-s", sarg]
-        cmd += ["-o", "data.bin.zck", "data.bin"]
+        cmd += ["-o", "data.bin.zck", inp]
         z = _run_closed(cmd, cdir, case["closed"])
         if z.timed_out and not z.cpu_exceeded:
             return core.verdict(cid, "inconclusive", detail="watchdog in zck", case=case)
@@ -354,6 +369,11 @@ def run_cli(case):
                          "zck exit 0, file decodes to %d bytes, input %d (first diff at %d)" % (len(v.content), len(D), _firstdiff(D, v.content))))
         # unzck
         os.rename(os.path.join(cdir, "data.bin"), os.path.join(cdir, "orig.bin"))
+        if case.get("stale") and not case["unzck_stdout"]:
+            # an older, longer (or shorter) file of the output's name is already there
+            junk = core.rng(case["i"], "C01", "stale").randbytes(len(D) + 5000 if case["stale"] == "longer" else max(0, len(D) // 2))
+            open(os.path.join(cdir, "data.bin"), "wb").write(junk)
+            stats["unzck_over_an_existing_output_file"] = 1
         if case["unzck_stdout"]:
             u = _run_closed([case["unzck"], "-c", "data.bin.zck"], cdir, [c for c in case["closed"] if c != 1], stdout_path=os.path.join(cdir, "data.bin"))
         else:
@@ -417,7 +437,7 @@ class C01(core.Check):
     prop = "C01"
     flavours = ["asan", "plain"]   # plain: only to confirm CPU-bound overruns seen under ASan (core.run_zh slow_retry)
     rule = ("library: random product of content kind/size x writer options x segmentation x read-size sequences, one process per "
-            "write and per read; CLI: zck option combinations x split-string placement x closed descriptors, then unzck. "
+            "write and per read; CLI: zck option combinations x split-string placement x closed descriptors (a tenth of the inputs are procfs files that report size 0), then unzck - half the time over an existing longer / shorter file of the output's name. "
             "distinct = hash of the full case description; non-trivial = close/exit reported success and the file has >= 2 data "
             "chunks (or is the empty / 1-byte boundary content)")
     assumptions = ["reference decoder lib/zckref.py, hashlib, system libzstd", "inputs <= 2 MiB"]
